@@ -193,6 +193,55 @@ theorem expired_run_ending (cfg : Cfg) (hf : Fixed cfg) : ∀ (h : List Op) (s :
       simp only [engCount]
       rcases h4 o rfl with h5 | h5 <;> omega
 
+/-- the three repairs -/
+def Fixed3 (cfg : Cfg) : Prop := Fixed cfg ∧ cfg.killAfterLaunch = true
+
+theorem hang_is_killed (o : Outcome) : (o == Outcome.hang && !(o != Outcome.raised)) = false := by
+  cases o <;> rfl
+
+/-- with the third repair the window is gone: a task launched after the expiry is killed at once -/
+theorem expired_eng3 (cfg : Cfg) (hf : Fixed3 cfg) (s : St) (o : Outcome) (h : Expired s) :
+    Expired (step cfg s (.eng o)) ∧
+    (rank (step cfg s (.eng o)) < rank s ∨ rank (step cfg s (.eng o)) = 0) := by
+  obtain ⟨⟨g1, g2⟩, g3⟩ := hf
+  obtain ⟨clock, prodDone, finTime, suicide, armed, consume, retries, cancel, kc, hasProc, procKilled,
+    lastLaunched, aged, hasOutput, lastOutput, outs, execLog, pc, cause, pollsFin, books, started⟩ := s
+  obtain ⟨hs, hb⟩ := h
+  simp only at hs
+  subst hs
+  have hk := hang_is_killed o
+  cases cancel <;> cases pc <;>
+    simp_all [Expired, step, engStep, post, doKill, blocked, rank] <;>
+    (repeat' split) <;> simp_all
+
+theorem expired_step3 (cfg : Cfg) (hf : Fixed3 cfg) (s : St) (op : Op) (h : Expired s) :
+    Expired (step cfg s op) ∧ rank (step cfg s op) ≤ rank s ∧
+    (∀ o, op = .eng o → rank (step cfg s op) < rank s ∨ rank (step cfg s op) = 0) := by
+  cases op with
+  | env e =>
+    obtain ⟨h1, _, h3⟩ := expired_env cfg s e h
+    exact ⟨h1, h3, fun o ho => by cases ho⟩
+  | eng o =>
+    obtain ⟨h1, h3⟩ := expired_eng3 cfg hf s o h
+    refine ⟨h1, ?_, fun o' _ => h3⟩
+    rcases h3 with h3 | h3 <;> omega
+
+theorem expired_run3 (cfg : Cfg) (hf : Fixed3 cfg) : ∀ (h : List Op) (s : St), Expired s →
+    rank (run cfg s h) ≤ rank s - engCount h := by
+  intro h
+  induction h with
+  | nil => intro s _; simp [run, engCount]
+  | cons op ops ih =>
+    intro s hs
+    obtain ⟨h1, h3, h4⟩ := expired_step3 cfg hf s op hs
+    have := ih _ h1
+    simp only [run]
+    cases op with
+    | env e => simp only [engCount]; omega
+    | eng o =>
+      simp only [engCount]
+      rcases h4 o rfl with h5 | h5 <;> omega
+
 theorem rank_le_four (s : St) : rank s ≤ 4 := by
   unfold rank
   split
